@@ -32,6 +32,13 @@ class Scripted(System):
         self.world.ran(self)
 
 
+class FalsyScripted(Scripted):
+    """falsy system objects (a __len__ returning 0, like the library's own Agent) must be scheduled like any other"""
+
+    def __len__(self):
+        return 0
+
+
 class World:
     def __init__(self, case):
         self.model = Model()
@@ -56,7 +63,7 @@ class World:
 
     def register(self, prio, event=True, sid=None):
         tok = len(self.all)
-        s = Scripted(sid or f"sys{tok}", self.model, prio, self, tok)
+        s = (FalsyScripted if tok % 3 == 2 else Scripted)(sid or f"sys{tok}", self.model, prio, self, tok)
         self.all.append(s)
         self.model.systems.add_system(s)
         self.seq += 1
